@@ -137,7 +137,9 @@ def gen_case(rng, n_ops=None, invalid_rate=0.15, pf_level=True):
                 q = hv(rng, rng.choice([1, -1]) * rng.choice([1, 3, 7, 10, 33, 100, 1000]), 'int')
                 if rng.random() < 0.04:
                     q = rng.choice([1, -1]) * rng.choice([10 ** 5, 250000, 10 ** 6])
-            ops.append(['submit', pid, a, int(q)])
+            n_sub = sum(1 for o in ops if o[0] == 'submit')
+            dup = rng.randrange(1, n_sub + 1) if n_sub and rng.random() < 0.04 else None
+            ops.append(['submit', pid, a, int(q)] + ([dup] if dup is not None else []))
             if pid in pfs and a != 'UUU':
                 pfs[pid]['pend'].append((a, q))
         elif k < 0.70:
